@@ -183,7 +183,7 @@ impl<'a> Net<'a> {
                 continue;
             }
             // signatures the model has to know about
-            let fake = InFlight { due: 0, from: w.from, re: w.re.clone(), mt: w.msg.message_type().clone(), ro: w.msg.read_only(), ip: w.msg.requester_ip(), seq: 0, tid: None };
+            let fake = InFlight { due: 0, from: w.from, re: w.re.clone(), mt: w.msg.message_type().clone(), ro: w.msg.read_only(), ip: w.msg.requester_ip(), seq: 0, tid: None, legacy: false };
             for k in known_signatures(&fake) {
                 if self.known.insert(k.clone()) {
                     self.run(k);
@@ -468,6 +468,25 @@ pub fn run(out: &mut Out, seed: u64, thorough: bool, replay: Option<&str>) {
                     if s != reader && !asked.contains(&a) {
                         net.out.violation("C07", "server-not-queried", format!("the lookup of node {reader} did not query server {s} in a network of {servers} servers"));
                     }
+                }
+            }
+        }
+        // C13: every joined server is discoverable BY ITS OWN ID: a lookup of the id of another server
+        // queries that server and find_node reports it
+        if servers >= 2 && servers <= 20 {
+            let s0 = if reader == 0 { 1 } else { 0 };
+            net.run(format!("n{s0} snap"));
+            if let Some(id0) = net.s.nodes[s0].last_snapshot.as_ref().map(|sn| sn.id) {
+                let before = net.requests.len();
+                let c = net.api(reader, format!("find_node t={}", hex(id0.as_bytes())));
+                net.settle(20 * SEC, 10 * MS);
+                let a0 = SocketAddrV4::new(ip_of(s0, public), 6881);
+                let asked: HashSet<SocketAddrV4> = net.requests[before..].iter().filter(|(i, _, k)| *i == reader && k.contains("/find_node/") && k.ends_with(&hex(id0.as_bytes()))).map(|(_, a, _)| *a).collect();
+                if !asked.contains(&a0) {
+                    net.out.violation("C13", "server-not-discoverable", format!("find_node of the id of server {s0}, started on node {reader} in a network of {servers} servers, queried {} nodes but not server {s0} itself", asked.len()));
+                }
+                if !net.results(reader, c).iter().any(|r| r.contains(&hex(id0.as_bytes()))) {
+                    net.out.violation("C13", "server-not-discoverable", format!("find_node of the id of server {s0} on node {reader} ({servers} servers) does not report that server: {:?}", net.results(reader, c).iter().map(|r| r.chars().take(120).collect::<String>()).collect::<Vec<_>>()));
                 }
             }
         }
